@@ -15,7 +15,7 @@ from __future__ import annotations
 import ast
 
 from sa.cfg import CFG
-from sa.core import AnalysisError, attr_chain, norm, walk_no_nested
+from sa.core import AnalysisError, attr_chain, norm, resolve_callee, walk_no_nested
 
 from . import backends, common
 
@@ -86,7 +86,15 @@ def r2(p, rep):
             # the shortcut only looks at coordinates/updates (tensors[1:]), never at the target's own size
             facts = cfg.guards(cfg.node_for(r))
             cond = " and ".join(norm(t) for t, pol in facts if pol)
-            ok2 = f"{star}[1:]" in cond
+            # the test may live in a helper that receives the tensors
+            for t, pol in facts:
+                for c in ast.walk(t):
+                    if isinstance(c, ast.Call):
+                        rr = resolve_callee(p, c, f.module)
+                        if rr and rr[0] == "func" and any(norm(a) == star for a in c.args):
+                            hp = rr[1].params[[norm(a) for a in c.args].index(star)]
+                            cond += " :: " + " ".join(norm(st) for st in rr[1].node.body).replace(f"{hp}[1:]", f"{star}[1:]")
+            ok2 = f"{star}[1:]" in cond and "== 0" in cond
             rep.add("C14.R2", f"{f.qualname}:shortcut-returns", f"{f.module.rel}:{r.lineno}", ok, f"returns {norm(r.value)}")
             rep.add("C14.R2", f"{f.qualname}:shortcut-condition", f"{f.module.rel}:{r.lineno}", ok2, f"taken when a zero length occurs in {star}[1:] (coordinates / updates): {cond[:120]}")
     if not found:
@@ -142,67 +150,98 @@ def r3(p, rep, rid="C14.R3", only_update=True):
 
 def r4(p, rep):
     rep.rule("C14.R4", "indices and updates are broadcast to the common shape whenever a broadcast function is supplied", "T-MPT over the CFG of the scatter combinator", floor=2)
-    f = p.func("update_at.inner", "adapter.numpy.classical_from_numpy")
+    outer, f = common.scatter_combinator_inner(p)
     cfg = CFG(f.node)
     params = f.params
-    opcalls = [n for n in walk_no_nested(f.node) if isinstance(n, ast.Call) and isinstance(n.func, ast.Name) and n.func.id == "op"]
+    opname = outer.params[0]
+    opcalls = [n for n in walk_no_nested(f.node) if isinstance(n, ast.Call) and isinstance(n.func, ast.Name) and n.func.id == opname]
     if not opcalls:
-        raise AnalysisError("unrecognised idiom: no op(...) call in update_at.inner")
+        raise AnalysisError("unrecognised idiom: the scatter combinator never calls its primitive")
     opnode = cfg.node_for(opcalls[0])
-    # the edge node for `broadcast is not None` being true
     edges = [n for n in cfg.nodes if n.kind == "edge" and n.polarity is True and n.test is not None and norm(n.test) == "broadcast is not None"]
     if not edges:
-        raise AnalysisError("unrecognised idiom: no `if broadcast is not None` in update_at.inner")
-    for var in params[1:3]:
-        assigns = [n for n in walk_no_nested(f.node) if isinstance(n, ast.Assign) and any(isinstance(t, ast.Name) and t.id == var for t in n.targets) and isinstance(n.value, ast.Call) and isinstance(n.value.func, ast.Name) and n.value.func.id == "broadcast" and n.value.args and norm(n.value.args[0]) == var]
+        edges = [n for n in cfg.nodes if n.kind == "edge" and n.polarity is False and n.test is not None and norm(n.test) == "broadcast is None"]
+    if not edges:
+        raise AnalysisError("unrecognised idiom: no test of `broadcast is not None` in the scatter combinator")
+    shapes = []
+    for i in (1, 2):
+        # the local that carries parameter i when op is called
+        var = opcalls[0].args[i]
+        vname = var.id if isinstance(var, ast.Name) else None
+        assigns = [n for n in walk_no_nested(f.node) if isinstance(n, ast.Assign) and vname and any(isinstance(t, ast.Name) and t.id == vname for t in n.targets) and isinstance(n.value, ast.Call) and isinstance(n.value.func, ast.Name) and n.value.func.id == "broadcast" and n.value.args and norm(n.value.args[0]) == vname]
         nodes = [cfg.node_for(a) for a in assigns]
         skip = cfg.can_reach(edges[0], opnode, avoid=nodes) if nodes else True
-        common.thorough_paths(rep, f"C14.R4:{var}", cfg, edges[0], opnode, nodes, dominator_verdict=not skip)
+        common.thorough_paths(rep, f"C14.R4:arg{i}", cfg, edges[0], opnode, nodes, dominator_verdict=not skip)
+        shapes += [a.value.args[1] for a in assigns if len(a.value.args) > 1]
         rep.add(
             "C14.R4",
-            f"{f.qualname}:broadcast({var})",
+            f"{outer.qualname}:closure:broadcast(arg{i})",
             f"{f.module.rel}:{(assigns[0].lineno if assigns else opcalls[0].lineno)}",
             not skip,
-            f"every path from `broadcast is not None` to op(...) rebinds {var} = broadcast({var}, shape)" if not skip else f"there is a path from `broadcast is not None` to op(...) on which {var} is not broadcast to the common shape: primitives that flatten/cycle their values (np.put) then pair update values with the wrong elements",
+            f"every path from `broadcast is not None` to the primitive rebinds {vname} = broadcast({vname}, shape)" if not skip else f"there is a path from `broadcast is not None` to the primitive on which `{vname}` (the {'indices' if i == 1 else 'updates'}) is not broadcast to the common shape: primitives that flatten/cycle their values (np.put) then pair update values with the wrong elements",
         )
-    # the common shape is the elementwise maximum of both shapes
-    shp = [n for n in walk_no_nested(f.node) if isinstance(n, ast.Assign) and any(isinstance(t, ast.Name) and t.id == "shape" for t in n.targets)]
-    ok = bool(shp) and "maximum" in norm(shp[0].value) and f"{params[1]}.shape" in norm(shp[0].value) and f"{params[2]}.shape" in norm(shp[0].value)
-    rep.add("C14.R4", f"{f.qualname}:common-shape", f"{f.module.rel}:{shp[0].lineno if shp else f.node.lineno}", ok, f"shape = {norm(shp[0].value)[:90] if shp else None}")
+    # both are broadcast to one common shape = elementwise maximum of both shapes
+    same = len({norm(x) for x in shapes}) == 1 and len(shapes) >= 2
+    ok = False
+    text = "?"
+    if same:
+        sname = shapes[0]
+        defs = [n.value for n in walk_no_nested(f.node) if isinstance(n, ast.Assign) and any(norm(t) == norm(sname) for t in n.targets)] if isinstance(sname, ast.Name) else [sname]
+        for d in defs:
+            text = norm(d)
+            body = text
+            for c in ast.walk(d):
+                if isinstance(c, ast.Call):
+                    r = resolve_callee(p, c, f.module)
+                    if r and r[0] == "func":
+                        body += " " + " ".join(norm(st) for st in r[1].node.body)
+            a1, a2 = norm(opcalls[0].args[1]), norm(opcalls[0].args[2])
+            ok = f"{a1}.shape" in text and f"{a2}.shape" in text and ("maximum(" in body or "max(" in body)
+    rep.add("C14.R4", f"{outer.qualname}:closure:common-shape", f"{f.module.rel}:{opcalls[0].lineno}", same and ok, f"common shape = {text[:90]}" if same and ok else f"indices and updates are not broadcast to one elementwise-maximum shape ({[norm(x) for x in shapes]}; {text[:60]})")
 
 
 def r5(p, rep):
     rep.rule("C14.R5", "length-1 squeezing never removes a bracketed axis", "T-DOM (predicate form)", floor=1)
+    from sa.cfg import decompose
+
     m = p.module("adapter.namedtensor_from_decomposednamedtensor")
     n_found = 0
     for f in p.funcs.values():
         if f.module is not m:
             continue
         for n in walk_no_nested(f.node):
-            if isinstance(n, ast.Call) and norm(n.func).endswith("stage3.remove") and len(n.args) >= 2:
-                pred = n.args[1]
-                body = None
-                if isinstance(pred, ast.Lambda):
-                    body, arg = pred.body, pred.args.args[0].arg
-                elif isinstance(pred, ast.Name):
-                    cands = [g for g in p.funcs.values() if g.parent is f and g.name == pred.id]
-                    if cands:
-                        rets = [r.value for r in walk_no_nested(cands[0].node) if isinstance(r, ast.Return)]
-                        if len(rets) == 1:
-                            body, arg = rets[0], cands[0].params[0]
-                if body is None:
+            if not (isinstance(n, ast.Call) and norm(n.func).endswith("stage3.remove") and len(n.args) >= 2):
+                continue
+            pred = n.args[1]
+            conds = []  # list of (facts under which the predicate returns a truthy value, arg name)
+            if isinstance(pred, ast.Lambda):
+                conds.append((decompose(pred.body, True), pred.args.args[0].arg))
+            elif isinstance(pred, ast.Name):
+                r = resolve_callee(p, pred, m)
+                g = r[1] if r and r[0] == "func" else None
+                if g is None:
                     continue
-                text = norm(body)
-                if f"{arg}.value == 1" in text:
-                    n_found += 1
-                    ok = f"not stage3.is_in_brackets({arg})" in text and isinstance(body, ast.BoolOp) and isinstance(body.op, ast.And)
-                    rep.add(
-                        "C14.R5",
-                        f"{f.qualname}:squeeze-predicate({norm(pred)[:30]})",
-                        f"{m.rel}:{n.lineno}",
-                        ok,
-                        f"predicate `{text[:100]}`" + ("" if ok else " removes bracketed axes of length 1: coordinates are matched to bracketed target axes by position, so the remaining ones receive the wrong coordinate components"),
-                    )
+                cfg = CFG(g.node)
+                arg = g.params[0]
+                for ret in walk_no_nested(g.node):
+                    if isinstance(ret, ast.Return) and ret.value is not None and not (isinstance(ret.value, ast.Constant) and ret.value.value is False):
+                        facts = cfg.guards(cfg.node_for(ret))
+                        if not (isinstance(ret.value, ast.Constant) and ret.value.value is True):
+                            facts = facts + decompose(ret.value, True)
+                        conds.append((facts, arg))
+            for facts, arg in conds:
+                texts = [(norm(t), pol) for t, pol in facts]
+                if not any(t == f"{arg}.value == 1" and pol for t, pol in texts):
+                    continue
+                n_found += 1
+                ok = any(t.endswith(f"is_in_brackets({arg})") and not pol for t, pol in texts)
+                rep.add(
+                    "C14.R5",
+                    f"{f.qualname}:squeeze-predicate",
+                    f"{m.rel}:{n.lineno}",
+                    ok,
+                    f"an axis is squeezed only if {[t if pol else 'not ' + t for t, pol in texts]}" + ("" if ok else ": bracketed axes of length 1 are removed too; coordinates are matched to bracketed target axes by position, so the remaining ones receive the wrong coordinate components"),
+                )
     if n_found == 0:
         raise AnalysisError("unrecognised idiom: no `value == 1` squeeze predicate handed to stage3.remove in the decomposer")
 
